@@ -187,6 +187,7 @@ fn main() {
             let seed: u64 = args.get(4).and_then(|s| s.parse().ok()).unwrap_or(report::DEFAULT_SEED);
             let out = args.get(5).map(|s| s.as_str()).unwrap_or("/dev/null");
             match args.get(2).map(|s| s.as_str()) {
+                Some("C02") => props::c02::deepruns_main(tier, seed, out),
                 Some("C05") => props::c05::deepruns_main(tier, seed, out),
                 Some("C08") => props::c08::deepruns_main(tier, seed, out),
                 Some("C09") => props::c09::deepruns_main(tier, seed, out),
